@@ -309,6 +309,17 @@ class C19(Prop):
                 out.violate('code and environment behave differently for %s (%s)' % (key, field),
                             {'code': repr(oc.get(field))[:200], 'env': repr(oe.get(field))[:200]})
                 return out
+        # given in both places, the value from code wins - observed where the setting acts, not at the config object
+        other = {'POLL_TIMER': '77', 'SERVICE_SECURE': 'True' if str(v).lower() in ('false', 'no') else 'False',
+                 'SERVICE_URL': 'other.example:9', 'LOGGING_CONF': '/etc/other/logging.conf',
+                 'IN_APP_INCLUDE': '/elsewhere', 'IN_APP_EXCLUDE': '/elsewhere', 'APP_ROOT': '/elsewhere'}.get(key)
+        if other is not None and str(other) != str(v):
+            ob = self.observe(code_cfg, {'DEEP_' + key: other})
+            for field in ('channel', 'metadata', 'logging_conf', 'timer_interval', 'classification'):
+                if ob.get(field) != oc.get(field):
+                    out.violate('given in code and in the environment: the value from code does not win for %s (%s)' % (
+                        key, field), {'code_only': repr(oc.get(field))[:200], 'both': repr(ob.get(field))[:200]})
+                    return out
         # the setting must actually act
         if key == 'SERVICE_URL' and oc['channel'][1] != v:
             out.violate('SERVICE_URL does not reach the channel')
